@@ -27,13 +27,14 @@ tvars == <<sc, l, s>>
 Ev == Rec[l]
 Req(p, cond) == (p \in Props) => cond
 
+W == INSTANCE Word
 Empty == [x \in {} |-> 0]
 Put(fn, k, v) == [x \in (DOMAIN fn) \cup {k} |-> IF x = k THEN v ELSE fn[x]]
 
 S0 == [phase |-> "idle", kind |-> "none", named |-> {}, mem |-> Empty, orig |-> Empty, split |-> Empty,
        eff |-> Empty, live |-> {}, pend |-> {}, twr |-> {}, orphans |-> {}, rwp |-> {}, dirty |-> {},
        cnt |-> Empty, ver |-> <<>>, ins |-> [f |-> "none"], touched |-> FALSE, unwinding |-> FALSE,
-       crashed |-> FALSE, lives |-> 0, ambient |-> FALSE]
+       crashed |-> FALSE, lives |-> 0, ambient |-> FALSE, faddr |-> Empty, tad |-> Empty]
 
 TraceInit == sc \in 1..NScen /\ l = First(sc) /\ s = S0
 
@@ -44,7 +45,8 @@ PageOf(f, off) == IF off <= s.split[f] THEN 1 ELSE 2
 -----------------------------------------------------------------------------
 Target ==
   /\ Step("Target")
-  /\ s' = [s EXCEPT !.mem = Put(@, Ev.f, Ev.orig), !.orig = Put(@, Ev.f, Ev.orig),
+  /\ s' = [s EXCEPT !.faddr = IF Has(Ev, "addr") THEN Put(@, Ev.f, Ev.addr) ELSE @,
+                    !.mem = Put(@, Ev.f, Ev.orig), !.orig = Put(@, Ev.f, Ev.orig),
                     !.split = Put(@, Ev.f, Ev.split), !.eff = Put(@, Ev.f, <<>>),
                     !.rwp = @ \cup {<<Ev.f, p>> : p \in Elems(Ev.rwpages)}]
 
@@ -71,7 +73,14 @@ Held == Req("C04", Ev.lock \in {1, 255})
 Mmap ==
   /\ Step("Mmap") /\ InLib /\ Held
   /\ Req("C12", s.phase = "install")
-  /\ s' = IF Ev.ok THEN [s EXCEPT !.pend = @ \cup {Ev.name}, !.touched = TRUE] ELSE s
+  /\ s' = IF Ev.ok THEN [s EXCEPT !.pend = @ \cup {Ev.name}, !.touched = TRUE,
+                                  !.tad = IF Has(Ev, "ret") THEN Put(@, Ev.name, Ev.ret) ELSE @] ELSE s
+
+\* does the entry of f, as it stands in memory, branch (jmp rel32) into the mapping `name`?
+BranchesInto(f, name) ==
+  /\ f \in DOMAIN s.faddr /\ name \in DOMAIN s.tad
+  /\ s.mem[f][1] = 233
+  /\ W!PageAlign(W!Add(W!AddNat(s.faddr[f], 5), W!SignExt(SubSeq(s.mem[f], 2, 5), 8))) = W!PageAlign(s.tad[name])
 
 \* giving back a mapping: it must be one the injector owns and has not given back yet
 \* an (injected) munmap failure changes nothing; the mapping stays, through no fault of the library
@@ -84,6 +93,12 @@ Munmap ==
   /\ Req("C12", ~Ev.foreign /\ Ev.name \in (s.pend \cup s.live \cup s.orphans))
   /\ Req("C12", Ev.name \in s.live => s.phase = "drop")
   /\ Req("C03", ~Ev.foreign)         \* memory the injector does not own is never given back on its behalf
+  \* Injectorpp!Unmap: a trampoline goes only after every entry that led into it has been rewritten (any thread may
+  \* call the function at any moment)
+  /\ Req("C01", \A f \in DOMAIN s.mem : ~BranchesInto(f, Ev.name))
+  /\ Req("C02", \A f \in DOMAIN s.mem : ~BranchesInto(f, Ev.name))
+  /\ Req("C14", \A f \in DOMAIN s.mem : ~BranchesInto(f, Ev.name))
+  /\ Req("C05", \A f \in DOMAIN s.mem : ~BranchesInto(f, Ev.name))
   /\ s' = [s EXCEPT !.pend = @ \ {Ev.name}, !.live = @ \ {Ev.name}, !.twr = @ \ {Ev.name},
                     !.dirty = {d \in @ : d[1] # Ev.name}]
 
@@ -104,6 +119,8 @@ WriteEntry ==
                      \/ s.phase = "drop" /\ f \in s.named)
        /\ Req("C01", \A o \in ch : <<f, PageOf(f, o)>> \in s.rwp)
        /\ Req("C17", s.phase = "install" => TrampReady)
+       /\ Req("C14", s.phase = "install" => TrampReady)
+       /\ Req("C01", s.phase = "install" => TrampReady)
        /\ s' = [s EXCEPT !.mem = Put(@, f, Ev.new), !.dirty = @ \cup Locs(f, ch), !.touched = TRUE]
 
 \* a write anywhere else in watched memory is never a step of the specification
